@@ -308,11 +308,9 @@ def timeParser (env : LexEnv) (c : Cfg F) (now : Now) (b : LineBuf) (res : List 
       some (onAdded (addSpan b st m.start e3 (some (.item (.time secs c.tz))) (b.sub m.start m.stop)) fun st =>
         st.hl b m.start m.stop "DateTime")
 
-/-- `parse_radix`: exact below 2^128 (then the nearest double), else folded in floating point -/
+/-- `parse_radix`: the nearest double of the integer the digits denote, whatever their number -/
 def parseRadix (digits : List Char) (radix : Nat) : F :=
-  let n := digits.foldl (fun a ch => a * radix + digitOf ch) 0
-  if n < 2 ^ 128 then Num.ofRat false n 1
-  else digits.foldl (fun a ch => Num.add (Num.mul a (Num.ofInt radix)) (Num.ofInt (digitOf ch))) (Num.ofInt 0)
+  Num.ofRat false (digits.foldl (fun a ch => a * radix + digitOf ch) 0) 1
 
 def numberParser (env : LexEnv) (c : Cfg F) (b : LineBuf) (res : List NRe) (st : LexSt F) : Option (LexSt F) :=
   overMatches env.T b.cs res st fun st re m =>
